@@ -88,11 +88,14 @@ static std::string limit_setter(int op) {
     case 7: { bool r = g_obj_a.set_username("0123456789abcdef"); return "set_username:" + std::to_string(r) + ":" + std::string(g_obj_a.get_href()); }
     case 8: { bool r = g_obj_a.set_protocol("https"); return "set_protocol:" + std::to_string(r) + ":" + std::string(g_obj_a.get_href()); }
     case 9: { bool r = g_obj_u.set_port("8080"); return "set_port-url:" + std::to_string(r) + ":" + g_obj_u.get_href(); }
+    // host and port in one value: either both are applied or the call fails as a whole (C09 defect #6, fixed in 29ce91b)
+    case 10: { bool r = g_obj_a.set_host("bcd:99"); return "set_host-port:" + std::to_string(r) + ":" + std::string(g_obj_a.get_href()); }
+    case 11: { bool r = g_obj_u.set_host("bcd:99"); return "set_host-port-url:" + std::to_string(r) + ":" + g_obj_u.get_href(); }
   }
   return "?";
 }
 static const int N_LIMIT_SETTERS = 4;       // H3 uses the first four
-static const int N_LIMIT_SETTERS_ALL = 10;  // H4 uses all
+static const int N_LIMIT_SETTERS_ALL = 12;  // H4 uses all
 
 static std::string body(const Case& c, int tid) {
   if (is_limit_harness(c.harness)) {
